@@ -180,6 +180,10 @@ fn main() {
             use skv_verif::engine_sched::{sched_prop, Flavor};
             run_model(vec![(sched_prop("C17", Flavor::C17), 1500, 30000), (sched_prop("C17", Flavor::C17Stall), 1200, 24000), (sched_prop("C17", Flavor::C17Permit), 1200, 24000), (sched_prop("C17", Flavor::C17Fail), 800, 16000), (sched_prop("C17", Flavor::C17Locks), 1500, 30000)], tier, replay)
         }
+        "C11S" => {
+            use skv_verif::engine_sched::{sched_prop, Flavor};
+            run_model(vec![(sched_prop("C11", Flavor::C11), 2500, 50000)], tier, replay)
+        }
         "C01S" => {
             use skv_verif::engine_sched::{sched_prop, Flavor};
             run_model(vec![(sched_prop("C01", Flavor::C01), 2000, 40000)], tier, replay)
@@ -212,7 +216,28 @@ fn main() {
         "C08" => run_model(vec![(props::c08(), 40000, 800000)], tier, replay),
         "C09" => run_model(vec![(props::c09(), 30000, 600000)], tier, replay),
         "C10" => run_model(vec![(props::c10(false, true), 5000, 100000), (props::c10(true, false), 5000, 100000), (props::c10(true, true), 500, 10000), (props::c10_backdated(), 3000, 60000)], tier, replay),
-        "C11" => run_model(vec![(props::c11(), 10000, 200000)], tier, replay),
+        "C11" => {
+            use skv_verif::engine_sched::{sched_prop, Flavor};
+            let findings = Findings::load();
+            let main = props::c11();
+            let sched = sched_prop("C11", Flavor::C11);
+            if let Some(p) = replay {
+                let text = std::fs::read_to_string(&p).unwrap_or_default();
+                if text.contains("\"actors\"") {
+                    std::process::exit(replay_one(&sched, &p, &findings));
+                }
+                std::process::exit(replay_one(&main, &p, &findings));
+            }
+            let seed = seed_from_env();
+            let t0 = Instant::now();
+            let mut rep = Report::default();
+            run_replays(&main, &findings, &mut rep);
+            run_replays(&sched, &findings, &mut rep);
+            rep.merge(run_prop(&main, cases_for(tier, 10000, 200000), seed, 0, &findings));
+            rep.merge(run_prop(&sched, cases_for(tier, 2500, 50000), seed, 1, &findings));
+            let rule = format!("{} || SECOND STREAM ({})", main.rule, sched.rule);
+            finish(main.id, main.level, tier, seed, &rule, &main.assumptions, &rep, t0.elapsed().as_secs_f64(), &findings)
+        }
         "C14" => run_model(vec![(props::c14(Some(false), Some(0)), 8000, 150000), (props::c14(Some(true), Some(0)), 600, 10000), (props::c14(Some(false), None), 600, 10000)], tier, replay),
         _ => {
             eprintln!("unknown or unimplemented property {id}");
